@@ -12,7 +12,8 @@ def norm_event(e, evaluator_fn, opfns):
         name = e[1]
         args = tuple(show(norm(a)) for a in e[2])
         if name.startswith(evaluator_fn):
-            return ("eval", args[0])
+            node = [a for a in args if a != "ctx" and not a.startswith("ctx.")]
+            return ("eval", node[0] if node else args[0])
         return ("call", short_callee(name)) + args
     if k == "call_local":
         if e[1] in opfns:
@@ -55,6 +56,8 @@ def make_abbr(evs):
                 j += 1
             # j is just after the ')' closing evs( ; next char must be ')' closing await(
             arg0 = s[start:first_end if first_end is not None else j - 1]
+            if arg0 == "ctx" and first_end is not None:
+                arg0 = s[first_end + 1:j - 1].strip()      # `ctx.eval(node)`: the node is the second argument
             if j < len(s) and s[j] == ")":
                 j += 1
             out.append("ev(" + abbr(arg0) + ")")
